@@ -31,8 +31,8 @@ def n_samples(d, g):
 
 def annotate(ev, tier):
     """Choose the grid denominator per event (input selection) and estimate cost."""
-    if ev.get("out") != "ok" or "lm" not in ev:
-        ev["g"] = 1
+    if ev.get("out") != "ok" or not ev.get("lm") or not isinstance(ev["lm"].get("vars"), list):
+        ev["g"] = 1          # (not compiled, or compiled with numbers outside the exact range: nothing to sample)
         return 1
     used = [d for d in ev["sdom"] if d["used"]]
     budget = 1500 if tier == "quick" else 12000
